@@ -13,8 +13,8 @@
           argument alone" (5ac4c3c) no position between the store and the caller is left without
           a copy, so the theorems are stated for ALL operations.  The positions where the code
           still does not copy (`aliasing_positions`) are inner positions that a later position
-          rebuilds, and the two caller → caller classes `agg-literal-alias`, `cursor-cache-alias`
-          (known findings; the store is not involved, `Sep` is not affected).
+          rebuilds, and the caller → caller class `cursor-cache-alias` (known finding; the store
+          is not involved, `Sep` is not affected; `agg-literal-alias` was repaired in /repo).
 -/
 import Proofs.C07
 
@@ -111,10 +111,10 @@ theorem copying_ops : Op.all.filter (Op.copying copyDiscipline) = Op.all := by d
 
 /-- The positions where the code does not copy: three inner positions (the document handed to
     `_insert`, the seed and `_id` of an upsert — all rebuilt by `_insert` before they are stored)
-    and the two caller → caller classes (known findings `agg-literal-alias`,
-    `cursor-cache-alias`; the store is not involved). -/
+    and the caller → caller class `cursor-cache-alias` (known finding; the store is not involved).
+    (`agg-literal-alias` was a second one; repaired in /repo: pipeline constants are copied.) -/
 theorem aliasing_positions :
-    copyDiscipline.aliasing = [.insertArg, .upsertSeed, .upsertId, .aggLiteral, .cursorCache] := by
+    copyDiscipline.aliasing = [.insertArg, .upsertSeed, .upsertId, .cursorCache] := by
   decide
 
 /-- none of them lies between the store and the caller -/
